@@ -179,8 +179,8 @@ def _unpack_plaintext(data: bytes) -> bytes:
         ) from exc
 
 
-def _compute_call_aad(auth: AuthContext | None) -> bytes:
-    r"""Build the AAD that binds a *call* token to its issuing principal.
+def _compute_call_aad(auth: AuthContext | None, method_name: str | None = None) -> bytes:
+    r"""Build the AAD that binds a *call* token to its issuing principal and method.
 
     Identical in shape to :func:`_compute_aad` but with a distinct
     version-tagged prefix, so a call token and a cursor token are not
@@ -188,14 +188,24 @@ def _compute_call_aad(auth: AuthContext | None) -> bytes:
     other is expected fails the AEAD tag check rather than decoding into a
     payload the reader will misinterpret.
 
+    With *method_name* the token is also bound to the stream method whose
+    ``/init`` minted it: presented at another method's ``/exchange`` it fails
+    the same tag check, so a method never rebuilds state from a call its own
+    initialization did not produce.  Cursor tokens inherit the binding through
+    the ``call_id`` they carry.  Method names are identifiers (NUL-free), so
+    the framing stays unambiguous.
+
     Args:
         auth: The authentication context for the current request.
+        method_name: The stream method the token belongs to.
 
     Returns:
         Associated-data bytes for the AEAD seal/open call.
 
     """
     prefix = b"vgi_rpc.call.v1\x00"
+    if method_name is not None:
+        prefix = b"vgi_rpc.call.v2\x00" + method_name.encode() + b"\x00"
     if auth is None or not auth.authenticated:
         return prefix + b"\x00anonymous"
     domain = (auth.domain or "").encode()
@@ -399,7 +409,7 @@ class _ResolvedCall:
     :meth:`StreamState.bind_call_state` documents.
     """
 
-    __slots__ = ("call_state", "created_at", "input_schema", "output_schema", "stream_id")
+    __slots__ = ("call_state", "created_at", "input_schema", "method_name", "output_schema", "stream_id")
 
     def __init__(
         self,
@@ -408,11 +418,15 @@ class _ResolvedCall:
         input_schema: pa.Schema,
         stream_id: str,
         created_at: int | None = None,
+        method_name: str | None = None,
     ) -> None:
         self.call_state = call_state
         self.output_schema = output_schema
         self.input_schema = input_schema
         self.stream_id = stream_id
+        # The stream method whose ``/init`` minted the call.  A cached entry is
+        # only ever served to that method's ``/exchange``.
+        self.method_name = method_name
         # The call token's ``created_at`` (``None``: tokens do not expire).
         # A cache entry stands in for the token, so it must not outlive it;
         # ``_CallStateCache.put`` anchors the entry's expiry here.
@@ -491,6 +505,7 @@ def _mint_call_token(
     auth: AuthContext | None,
     stream_id: str,
     *,
+    method_name: str | None = None,
     now: int | None = None,
 ) -> tuple[bytes, bytes, bytes]:
     """Serialize and seal a stream's call token.  Called once, by ``/init``.
@@ -502,6 +517,8 @@ def _mint_call_token(
         token_key: Master AEAD key from the server config.
         auth: Authenticated identity for AAD binding.
         stream_id: Chain-correlation id.
+        method_name: The stream method being initialized; the token only
+            opens at that method's ``/exchange``.
         now: Override for the baked-in timestamp; default ``time.time()``.
 
     Returns:
@@ -520,7 +537,7 @@ def _mint_call_token(
         call_id,
         stream_id,
         token_key,
-        _compute_call_aad(auth),
+        _compute_call_aad(auth, method_name),
         int(time.time()) if now is None else now,
     )
     return token, call_id, call_state_bytes
